@@ -15,6 +15,10 @@
 //	       s<K>.<V>   a middleware doing req.Header.Set(K, V)
 //	       x<K>       a middleware doing req.Header.Del(K)
 //	       I          a middleware whose InitMiddleware fails (Run must end with that error on both paths)
+//	       C          not a middleware: Close of the ammo file fails (Run must report it on both paths)
+//
+//	<cancel> may be D<n>: after n items the context ends the way a context with a deadline does
+//	(Err() = context.DeadlineExceeded); Run must return that error ("deadline") on both paths.
 //
 // Observation as for cpair; a header value that is a time stamp in http.TimeFormat is rendered as
 // the single byte "D" (no wall-clock values in observations), several values of one key are joined
@@ -29,6 +33,7 @@ import (
 	"strconv"
 	"strings"
 
+	"github.com/spf13/afero"
 	"github.com/yandex/pandora/components/providers/http/middleware"
 	"github.com/yandex/pandora/components/providers/http/middleware/headerdate"
 	"go.uber.org/zap"
@@ -59,8 +64,8 @@ func parseMws(s string) []mwSpec {
 			out = append(out, mwSpec{op: f[0], k: p.k, v: p.v})
 		case 'x':
 			out = append(out, mwSpec{op: 'x', k: string(vh.UnHex(orDash(f[1:])))})
-		case 'I':
-			out = append(out, mwSpec{op: 'I'})
+		case 'I', 'C':
+			out = append(out, mwSpec{op: f[0]})
 		}
 	}
 	return out
@@ -90,7 +95,7 @@ func mwsString(mws []mwSpec) string {
 		case 'x':
 			parts[i] = "x" + vh.HexS(m.k)
 		default:
-			parts[i] = "I"
+			parts[i] = string(m.op)
 		}
 	}
 	return strings.Join(parts, ",")
@@ -121,6 +126,9 @@ func (o *opMiddleware) UpdateRequest(req *http.Request) error {
 func buildMiddlewares(mws []mwSpec) []middleware.Middleware {
 	var out []middleware.Middleware
 	for _, m := range mws {
+		if m.op == 'C' {
+			continue // not a middleware: the ammo file's Close fails
+		}
 		if m.op == 'd' {
 			d, err := headerdate.NewMiddleware(headerdate.Config{HeaderName: m.k})
 			if err != nil {
@@ -132,6 +140,35 @@ func buildMiddlewares(mws []mwSpec) []middleware.Middleware {
 		out = append(out, &opMiddleware{m: m})
 	}
 	return out
+}
+
+func hasOpt(mws []mwSpec, op byte) bool {
+	for _, m := range mws {
+		if m.op == op {
+			return true
+		}
+	}
+	return false
+}
+
+// closeFailFs: files opened through it read like the underlying ones; their Close reports an error.
+type closeFailFs struct{ afero.Fs }
+
+type closeFailFile struct{ afero.File }
+
+var errCloseFails = errors.New("verif: close fails")
+
+func (f closeFailFs) Open(name string) (afero.File, error) {
+	fl, err := f.Fs.Open(name)
+	if err != nil {
+		return nil, err
+	}
+	return closeFailFile{fl}, nil
+}
+
+func (f closeFailFile) Close() error {
+	_ = f.File.Close()
+	return errCloseFails
 }
 
 // stampless replaces every value that is a time stamp in http.TimeFormat by "D".
@@ -149,10 +186,17 @@ func stampless(vs []string) []string {
 
 func genMw(r *vh.Rand, tier string) []string {
 	var out []string
+	unbounded := 0
 	add := func(kind string, limit, passes int, cfg []kv, items []citem, ch []string, filter bool, mws []mwSpec) {
 		cancel := "-"
 		if limit == 0 && passes == 0 {
 			cancel = strconv.Itoa(2*cmatches(items, ch, filter) + 1)
+			if unbounded++; unbounded%2 == 1 {
+				cancel = "D" + cancel
+			}
+		}
+		if len(out)%7 == 3 && !hasOpt(mws, 'C') {
+			mws = append(append([]mwSpec(nil), mws...), mwSpec{op: 'C'})
 		}
 		out = append(out, fmt.Sprintf("mpair %s %d %d %s %s %s %s %d %s", kind, limit, passes, cfgString(cfg),
 			citemsString(items), chosenString(ch, filter), cancel, len(out)%a08.EOFLayouts, mwsString(mws)))
